@@ -85,6 +85,21 @@ def _cases(tier, rng):
         if rng.random() < 0.3:
             c['ctx'] = 'split'
         yield c
+    # accumulated values whose == is elementwise and has no truth value (numpy arrays, pandas objects): scans, running or reduced,
+    # with or without terminator, must treat them as opaque values on both paths (real code against real code, outside the model)
+    for _ in range({'quick': 40, 'thorough': 300, 'search': 20}[tier]):
+        seed = {'vec': [0] * rng.choice([2, 3])}
+        st = ['scan', ['add'], seed, rng.random() < 0.4, rng.choice([None, None, ['id']])] + rng.choice([[], ['factory']])
+        term = [st] + rng.choice([[], [['last']], [['take', 2]]])
+        ng = rng.choice([1, 2, 3])
+        items = [{'t': [rng.randrange(ng), rng.randrange(9)]} for _ in range(rng.choice([2, 4, 7]))]
+        c = {'kind': 'dual', 'term': term, 'items': items, 'no_model': True}
+        r_ = rng.random()
+        if r_ < 0.25:
+            c['ctx'] = 'split'
+        elif r_ < 0.4:
+            c['ctx'], c['w'] = 'roll', 2
+        yield c
     n = {'quick': 1500, 'thorough': 10000, 'search': 600}[tier]
     for _ in range(n):
         yield gen_case(rng, tier)
@@ -178,6 +193,8 @@ def raising_prefix(term, xs, depth=0):
 
 
 def model_cmds(case):
+    if case.get('no_model'):
+        return []
     cmds = [{'cmd': 'mux', 'pipe': mux_term(case), 'items': case['items'], 'bounds': True}]
     for g, xs in groups(case).items():
         cmds.append({'cmd': 'plain', 'pipe': case['term'], 'items': xs})
@@ -185,6 +202,8 @@ def model_cmds(case):
 
 
 def model_result(case, ans):
+    if case.get('no_model'):
+        return {}
     for a in ans:
         if 'error' in a:
             return {'model_error': a['error']}
@@ -195,6 +214,8 @@ def model_result(case, ans):
 
 
 def compare(case, r, m):
+    if case.get('no_model'):
+        return None
     c = dict(case)
     c['kind'] = 'mux'
     c['term'] = mux_term(case)
